@@ -7,6 +7,8 @@ import (
 
 	"github.com/compose-spec/compose-go/v2/types"
 
+	"gopkg.in/yaml.v3"
+
 	"verifh/core"
 )
 
@@ -17,7 +19,7 @@ type c11 struct{}
 func (c11) ID() string    { return "C11" }
 func (c11) Level() string { return "exploration" }
 func (c11) Rule() string {
-	return "30 default-able facts (default network membership; implicit default network; <project>_<key> names of network/volume/secret/config; depends_on implied by links, network_mode/ipc/pid service: namespaces (alone, next to a plain value of another namespace, two at once), volumes_from; build context; dockerfile; port protocol; port mode; secret target; depends_on required; depends_on short list; env_file required; device count; pull_policy alias), each carried by its own service: every subset of <=3 facts left implicit and every subset of <=3 facts written explicitly (thorough: all 2^14 subsets of the first 14), delivered by main file (also declaring a `name:` other than the imposed project name, and with services and resources named x-... / with dots) / override / include / extended base (other file and same file), and (main file, extended base) under a later layer that restates the same entry in its other spelling and adds other entries to the same attributes; oracle: implicit model == all-explicit model delivered the same way. Plus, per fact, an explicit non-default value that must survive, an implied depends_on that must not replace a declared one, and the `default` network present iff used, over every assignment of 3 services to 6 ways of using or not using it (implicit, explicit list, explicit mapping, with another network, network_mode, another network only). distinct = distinct subsets x origins"
+	return "30 default-able facts (default network membership; implicit default network; <project>_<key> names of network/volume/secret/config; depends_on implied by links, network_mode/ipc/pid service: namespaces (alone, next to a plain value of another namespace, two at once), volumes_from; build context; dockerfile; port protocol; port mode; secret target; depends_on required; depends_on short list; env_file required; device count; pull_policy alias), each carried by its own service: every subset of <=3 facts left implicit and every subset of <=3 facts written explicitly (thorough: all 2^14 subsets of the first 14), delivered by main file (also declaring a `name:` other than the imposed project name, and with services and resources named x-... / with dots) / override / include / extended base (other file and same file), and (main file, extended base) under a later layer that restates the same entry in its other spelling and adds other entries to the same attributes; oracle: implicit model == all-explicit model delivered the same way. Plus, per fact, an explicit non-default value that must survive (written literally, and with every value of the service given through a variable), an implied depends_on that must not replace a declared one, and the `default` network present iff used, over every assignment of 3 services to 6 ways of using or not using it (implicit, explicit list, explicit mapping, with another network, network_mode, another network only). distinct = distinct subsets x origins"
 }
 func (c11) Assumptions() []string {
 	return []string{"projects compared with go-cmp (EquateEmpty) over all model fields"}
@@ -368,6 +370,29 @@ func (c11) Run(c *core.Ctx) {
 			}
 			i, f := i, f
 			id := fmt.Sprintf("nondefault/%s/%s", origin, f.name)
+			// the same with every value of the service written through a variable (where the schema admits that spelling)
+			c.Do(id+"/through-variables", func() core.Outcome {
+				body, env := c11varify(f.nonDef)
+				if body == "" {
+					return core.Outcome{Class: "na", Trivial: true}
+				}
+				facts2 := append([]c11fact{}, facts...)
+				facts2[i].nonDef = body
+				doc := c11doc(facts2, all, i)
+				s := c11scn(facts2, doc, origin)
+				s.Env = env
+				root := s.Materialise()
+				p, err := s.LoadAt(root)
+				sample := map[string]any{"fact": f.name, "origin": origin, "doc": doc, "env": env}
+				if err != nil {
+					// a position that does not take the textual spelling: nothing to assert
+					return core.Outcome{Class: "strict-position", Trivial: true}
+				}
+				if msg := f.nonDefOK(p, c11rename(fmt.Sprintf("f%02d", i), origin)); msg != "" {
+					return core.Outcome{Class: "ow", Sample: sample, Viol: &core.Violation{Key: "explicit-value-overwritten:" + f.name + ":through-variables", Msg: id + ": " + msg}}
+				}
+				return core.Outcome{Class: id + "/v", Sample: sample}
+			})
 			c.Do(id, func() core.Outcome {
 				doc := c11doc(facts, all, i)
 				s := c11scn(facts, doc, origin)
@@ -449,6 +474,45 @@ func c11rename(doc, origin string) string {
 		}
 		return t
 	})
+}
+
+// c11varify rewrites a service body so that every scalar value is given through its own variable.
+func c11varify(fragment string) (string, map[string]string) {
+	var m map[string]any
+	if err := yaml.Unmarshal([]byte("s:\n"+fragment), &m); err != nil {
+		return "", nil
+	}
+	env := map[string]string{}
+	var walk func(v any) any
+	walk = func(v any) any {
+		switch x := v.(type) {
+		case map[string]any:
+			for k, e := range x {
+				x[k] = walk(e)
+			}
+			return x
+		case []any:
+			for i, e := range x {
+				x[i] = walk(e)
+			}
+			return x
+		case nil:
+			return nil
+		default:
+			name := fmt.Sprintf("ND%d", len(env))
+			env[name] = fmt.Sprint(x)
+			return "${" + name + "}"
+		}
+	}
+	b, err := yaml.Marshal(walk(m["s"]))
+	if err != nil {
+		return "", nil
+	}
+	out := ""
+	for _, l := range strings.Split(strings.TrimRight(string(b), "\n"), "\n") {
+		out += "    " + l + "\n"
+	}
+	return out, env
 }
 
 func popcount(x uint32) int {
